@@ -8,6 +8,7 @@ import NemoVerif.Lemmas.Conflict
 import NemoVerif.Lemmas.ConflictLink
 import NemoVerif.Lemmas.ConflictPhaseVM
 import NemoVerif.Lemmas.ConflictChain
+import NemoVerif.Lemmas.ConflictOrderVM
 import NemoVerif.Models.Match
 namespace NemoVerif.C05
 open NemoVerif.Conflict List
@@ -577,6 +578,51 @@ theorem conflict_resolution_frame_vm (G : FUid → Prop) (fuel : Nat) (actionabl
       ∀ g, ¬ G g → UntouchedVM s (outState (resolveActionConflicts fuel actionable s)) g := by
   obtain ⟨c, f⟩ := (FrM.resolveActionConflicts fuel actionable hH).app s hc
   exact ⟨c, fun g hg => untouched_of_frameM f g hg⟩
+
+
+/-! `winner_is_max` / `better_score_wins` / `more_specific_wins` on the terms of `CoreVM.resolveActionConflicts`.
+    `scoresOf`, `group`, `maxLen`, `ordered`, `nEq`, `picked` are the let-bindings of one group iteration of the interpreter model
+    (`picked := ordered[c]!` with `c < nEq` — `pickChoice_lt`); `vmPicked` spells that term out.  The comparison is EXACT:
+    `scoresLt` is the lexicographic order of the rational values `prio · 0.9^k` (`CoreVM.scoresLt_iff`, `Score.lt_iff`). -/
+
+/-- the head one group iteration of `CoreVM.resolveActionConflicts` binds to `picked` when the tie-break answers `c` -/
+def vmPicked (scoresOf : Key → List CoreVM.Score) (group : List Key) (c : Nat) : Key :=
+  (sortDesc (fun kk => padScores (scoresOf kk) (group.foldl (fun m kk => max m (scoresOf kk).length) 0)) group)[c]!
+
+/-- the number of tie-break candidates of that iteration (`nEq`) -/
+def vmTies (scoresOf : Key → List CoreVM.Score) (group : List Key) : Nat :=
+  equalPrefixLen scoresOf (sortDesc (fun kk => padScores (scoresOf kk) (group.foldl (fun m kk => max m (scoresOf kk).length) 0)) group)
+
+/-- `winner_is_max` on CoreVM: the picked head's score vector, padded with 1.0 to the longest vector of its loop group, is not
+    smaller than the padded vector of any head of the group — for every group, every score table, every tie-break outcome. -/
+theorem winner_is_max_vm (scoresOf : Key → List CoreVM.Score) (group : List Key) (c : Nat) (hc : c < vmTies scoresOf group) :
+    ∀ z ∈ group, ¬ ((padScores (scoresOf z) (group.foldl (fun m kk => max m (scoresOf kk).length) 0)).map CoreVM.Score.val >
+                    (padScores (scoresOf (vmPicked scoresOf group c)) (group.foldl (fun m kk => max m (scoresOf kk).length) 0)).map CoreVM.Score.val) := by
+  intro z hz
+  have h := corevm_picked_is_max scoresOf group c hc z hz
+  exact (scoresLt_false_iff _ _).1 h
+
+/-- `better_score_wins` on CoreVM -/
+theorem better_score_wins_vm (scoresOf : Key → List CoreVM.Score) (group : List Key) (c : Nat) (hc : c < vmTies scoresOf group)
+    (A B : Key) (hA : A ∈ group) (pre : List CoreVM.Score) (a b : CoreVM.Score) (ta tb : List CoreVM.Score)
+    (hsa : scoresOf A = pre ++ a :: ta) (hsb : scoresOf B = pre ++ b :: tb) (hab : b.val < a.val) :
+    vmPicked scoresOf group c ≠ B :=
+  corevm_better_score_wins scoresOf group c hc A B hA pre a b ta tb hsa hsb ((CoreVM.Score.lt_iff b a).2 hab)
+
+/-- `more_specific_wins` on CoreVM: same (positive) priority, A's match left fewer parameters unmentioned (`0 ≤ kA < kB`, the
+    exponent of C04's matcher) at the first position where the vectors differ ⇒ B is not picked. -/
+theorem more_specific_wins_vm (scoresOf : Key → List CoreVM.Score) (group : List Key) (c : Nat) (hc : c < vmTies scoresOf group)
+    (A B : Key) (hA : A ∈ group) (pre : List CoreVM.Score) (a b : CoreVM.Score) (ta tb : List CoreVM.Score)
+    (hsa : scoresOf A = pre ++ a :: ta) (hsb : scoresOf B = pre ++ b :: tb)
+    (hp : a.prio = b.prio) (hpos : 0 < a.num.1) (hk0 : 0 ≤ a.k) (hk : a.k < b.k) :
+    vmPicked scoresOf group c ≠ B :=
+  corevm_better_score_wins scoresOf group c hc A B hA pre a b ta tb hsa hsb (CoreVM.Score.lt_of_more_unmentioned a b hp hpos hk0 hk)
+
+/-- non-vacuity: two heads, [0.9] against [0.9, 0.5] — one tie-break candidate, the shorter vector is picked (padding with 1.0).
+    Finite facts, by evaluation. -/
+example : vmTies (fun k => if k = ("f1", "h1") then [⟨1, none⟩] else [⟨1, none⟩, ⟨0, some (1, 1)⟩]) [("f2", "h2"), ("f1", "h1")] = 1 ∧
+    vmPicked (fun k => if k = ("f1", "h1") then [⟨1, none⟩] else [⟨1, none⟩, ⟨0, some (1, 1)⟩]) [("f2", "h2"), ("f1", "h1")] 0 = ("f1", "h1") := by
+  decide
 
 /-! non-vacuity of `Closed G` with something outside `G`: two instances, `G` = {f1}; f1 has no child / scope flows and owns
     its context — f2 is outside. -/
